@@ -94,7 +94,7 @@ func genC20Plan(r *zsim.Rng) *sysPlan {
 	p.Args = append(p.Args, "--preview", tmpl)
 	narrowWide := false
 	if r.Chance(1, 2) {
-		p.Args = append(p.Args, "--preview-window", pick(r, "right", "left,30%", "up", "down,50%", "hidden", "right,border-none", "up,follow", "right,50%,<40(hidden)", "right,50%,<40(up,40%)"))
+		p.Args = append(p.Args, "--preview-window", pick(r, "right", "left,30%", "up", "down,50%", "hidden", "right,border-none", "up,follow", "right,follow", "down,30%,follow", "right,50%,<40(hidden)", "right,50%,<40(up,40%)"))
 		narrowWide = strings.Contains(p.Args[len(p.Args)-1], "<40")
 	}
 	for _, b := range c20Binds {
@@ -121,6 +121,24 @@ func genC20Plan(r *zsim.Rng) *sysPlan {
 		case 5:
 			ps.StartErr = true
 		case 6:
+			if r.Chance(1, 3) {
+				// more lines than the window has rows (follow mode scrolls to the end), then - sometimes - a clear
+				// code and a short second frame
+				var b strings.Builder
+				nl := r.Range(30, 120)
+				for k := 1; k <= nl; k++ {
+					fmt.Fprintf(&b, "L%d\n", k)
+				}
+				ps.Text = b.String()
+				ps.Chunks = []int{nl}
+				ps.DelaysMs = []int{r.Intn(100)}
+				if r.Bool() {
+					ps.Text += "\x1b[2Jframe2-a\nframe2-b\n"
+					ps.Chunks = append(ps.Chunks, 100)
+					ps.DelaysMs = append(ps.DelaysMs, []int{50, 300, 700, 1200}[r.Intn(4)])
+				}
+				break
+			}
 			ps.Text = "before\n\x1b[2Jafter-clear\nmore\n"
 			ps.DelaysMs = []int{r.Intn(300)}
 			if r.Chance(2, 3) {
@@ -394,7 +412,26 @@ func c20Settle(r *sysRun, busy bool) {
 	if !busy && !last.Alive && last.Consumed == last.Emitted.Len() && t.pwindow != nil && len(c.viol) == 0 {
 		pw := t.pwindow
 		top, left, width, height := pw.Top(), pw.Left(), pw.Width(), pw.Height()
-		simple := len(want) > 0 && len(want) <= height && t.previewer.offset == 0 && !strings.Contains(strings.ReplaceAll(last.Emitted.String(), "\x1b[2J", ""), "\x1b")
+		// (a pane scrolled by hand or by follow mode shows the lines from its scroll offset on - the offset is state,
+		// but it has to designate a line that exists: content is never scrolled out of sight altogether)
+		off := t.previewer.offset
+		simple := len(want) > 0 && !strings.Contains(strings.ReplaceAll(last.Emitted.String(), "\x1b[2J", ""), "\x1b")
+		if simple && off >= len(want) && last.ExitCode != 127 {
+			c.violate("c20.screen", "the preview window is scrolled to line %d of an output of %d lines: nothing of what the command that ran last (%q) printed is shown", off+1, len(want), last.Command)
+			return
+		}
+		if off > 0 || len(want) > height {
+			c.count("probe.preview_scrolled_checked", 1)
+		}
+		if off < 0 {
+			off = 0
+		}
+		if simple {
+			want = want[off:]
+			if len(want) > height {
+				want = want[:height]
+			}
+		}
 		for _, l := range want {
 			tl := strings.TrimRight(l, "\n")
 			if len(tl) >= width-1 || strings.ContainsAny(tl, "\t\r") {
